@@ -325,3 +325,81 @@ Print Assumptions C03_arena_elim_preserves.
 Print Assumptions C03_arena_ok_sound.
 Print Assumptions C03_arena_elim_nonvacuous.
 (* x-aelim end ---------------------------------------------------------------------------------------------------- *)
+
+(* x-kprune begin -------------------------------------------------------------------------------------------------
+   the pruned generic composition for EVERY branching factor K (Pwl/KPrune.v: the loop of impl_composition.rs:275-327
+   over the existing child slots of an lhs node in ascending label order, is_edge_feasible = CPrune.explore on the path
+   rows ++ EdgeRegion.label_rows p' label -- one half-space per row of the predicate, as pwl::iter::halfspaces_of_label
+   since the repair of D20 --, keep_last over EXISTING edges, forwarding iff created == 1 && created + skipped == K,
+   LIFO descent).  ktree = arena-shaped tree with a list of child slots; kev / kterm route by `decide` as
+   AffTree::evaluate does; kerase forgets indices and states.
+     kary K L      : every decision of lhs has K child slots and a predicate with r rows, 2^r <= K
+     kok s t       : decisions of the receiver have one bias entry per row; its terminal functions keep the row count of
+                     a decision under the schema (function composition: keeps_nrows_comp; operators: always)
+     kmarks x q t  : no cached Infeasible mark on a node whose closed path polytope contains x
+   An empty slot of lhs is never bridged by forwarding (seeded change C07-r3-2): it stays an empty slot of the result. *)
+From AT Require EdgeRegion KPrune KPruneEval KPruneBin KPruneExample.
+(* value and definedness, any schema that keeps row counts, at any node of the receiver *)
+Theorem C03_kprune_preserves : forall o tol s K L x, osound o x -> KPruneEval.kary K L ->
+  forall t q k, KPruneEval.kok s t -> KPruneEval.kmarks x q t -> in_rows q x ->
+  KPrune.kev (fst (KPrune.kprune o tol s K L t q k)) x = eval (lift s (KPrune.kerase t) L) x.
+Proof. exact KPruneEval.kprune_kev. Qed.
+(* the terminal function x is led to (what the coefficient-wise operators depend on) *)
+Theorem C03_kprune_terminal : forall o tol s K L x, osound o x -> KPruneEval.kary K L ->
+  forall t q k, KPruneEval.kok s t -> KPruneEval.kmarks x q t -> in_rows q x ->
+  KPrune.kterm (fst (KPrune.kprune o tol s K L t q k)) x = term (lift s (KPrune.kerase t) L) x.
+Proof. exact KPruneEval.kprune_kterm. Qed.
+(* compose::<true, _> and tree (op) tree for any K *)
+Theorem C03_kcompose_prune : forall o tol K t L x, osound o x -> KPruneEval.kary K L ->
+  KPruneEval.kok comp_schema t -> KPruneEval.kmarks x [] t ->
+  KPrune.kev (fst (KPrune.kcompose_prune o tol K t L)) x = eval (compose (KPrune.kerase t) L) x.
+Proof. exact KPruneEval.kcompose_prune_kev. Qed.
+Theorem C03_kops_prune : forall o tol K fo t L x, osound o x -> KPruneEval.kary K L -> KPruneEval.kdecs t ->
+  KPruneEval.kmarks x [] t ->
+  KPrune.kev (fst (KPrune.kprune o tol (op_schema fo) K L t [] k0)) x = eval (top fo (KPrune.kerase t) L) x.
+Proof. exact KPruneEval.ktop_prune_kev. Qed.
+(* kev / kterm are evaluation / find_terminal of the inductive tree the runner compares *)
+Theorem C03_kev_is_eval : forall t x, KPrune.kev t x = eval (KPrune.kerase t) x.
+Proof. exact KPruneEval.kev_kerase. Qed.
+(* function composition keeps the number of rows of every decision *)
+Theorem C03_kprune_comp_keeps_rows : forall tf, length (a_bias tf) = length (a_mat tf) -> KPruneEval.keeps_nrows comp_schema tf.
+Proof. exact KPruneEval.keeps_nrows_comp. Qed.
+(* K = 2: the K-ary model on the embedding of a binary tree IS the binary model CPrune.v, result and oracle-call counter *)
+Theorem C03_kprune_binary_is_cprune : forall o tol s L, bin2 L -> forall t q k, cbin t -> terms_ok s t ->
+  KPrune.kprune o tol s 2 L (KPrune.kemb t) q k = (KPrune.kemb (fst (cprune o tol s L t q k)), snd (cprune o tol s L t q k)).
+Proof. exact KPruneBin.kprune_binary. Qed.
+Theorem C03_kgraft_binary_is_graftp : forall o tol s tf, keeps_rows s tf -> forall L, bin2 L -> forall top st i q k,
+  KPrune.kgraft o tol s 2 tf L top st i q k =
+  (KPrune.kemb (fst (graftp o tol s tf L top st i q k)), snd (graftp o tol s tf L top st i q k)).
+Proof. exact KPruneBin.kgraft_binary. Qed.
+Theorem C03_kemb_erase : forall t, KPrune.kerase (KPrune.kemb t) = erase t.
+Proof. exact KPruneBin.kerase_kemb. Qed.
+(* non-vacuity, K = 4 (two-row predicate y <= 1, -y <= 1 below the receiver x <= -2 ? id : id; exact certified oracle):
+   below the terminal x <= -2 three of the four edges are infeasible and the decision is FORWARDED, below the other one
+   the empty edge 0 is PRUNED; with the slot of label 3 empty in lhs the decision below x <= -2 keeps its single child
+   and the empty slot (nothing is forwarded over an empty slot); the theorem's hypotheses hold for every x in R^1 *)
+Example C03_kprune_nonvacuous :
+  (forall x, length x = 1%nat -> osound (KPruneExample.kx_oracle 1) x) /\
+  KPruneEval.kary 4 KPruneExample.kx_L /\ KPruneEval.kary 4 KPruneExample.kx_Lp /\
+  KPruneEval.kok comp_schema KPruneExample.kx_t /\ (forall x, KPruneEval.kmarks x [] KPruneExample.kx_t) /\
+  KPrune.ktree_eqb_shape (fst (KPrune.kcompose_prune (KPruneExample.kx_oracle 1) 0 4 KPruneExample.kx_t KPruneExample.kx_L))
+                         KPruneExample.kx_r = true /\
+  KPrune.ktree_eqb_shape (fst (KPrune.kcompose_prune (KPruneExample.kx_oracle 1) 0 4 KPruneExample.kx_t KPruneExample.kx_Lp))
+                         KPruneExample.kx_rp = true /\
+  (forall x, length x = 1%nat ->
+     KPrune.kev (fst (KPrune.kcompose_prune (KPruneExample.kx_oracle 1) 0 4 KPruneExample.kx_t KPruneExample.kx_L)) x
+       = eval (compose (KPrune.kerase KPruneExample.kx_t) KPruneExample.kx_L) x /\
+     KPrune.kev (fst (KPrune.kcompose_prune (KPruneExample.kx_oracle 1) 0 4 KPruneExample.kx_t KPruneExample.kx_Lp)) x
+       = eval (compose (KPrune.kerase KPruneExample.kx_t) KPruneExample.kx_Lp) x).
+Proof. exact KPruneExample.kx_c03. Qed.
+Print Assumptions C03_kprune_preserves.
+Print Assumptions C03_kprune_terminal.
+Print Assumptions C03_kcompose_prune.
+Print Assumptions C03_kops_prune.
+Print Assumptions C03_kev_is_eval.
+Print Assumptions C03_kprune_comp_keeps_rows.
+Print Assumptions C03_kprune_binary_is_cprune.
+Print Assumptions C03_kgraft_binary_is_graftp.
+Print Assumptions C03_kemb_erase.
+Print Assumptions C03_kprune_nonvacuous.
+(* x-kprune end --------------------------------------------------------------------------------------------------- *)
